@@ -36,7 +36,12 @@ def atom_payload(a):
 
 
 def lat_value(lat):
-    return "Lattice(%s)" % ",".join("%.8g" % float(x) for x in lat.abcABG())
+    """cell parameters and orientation (base vectors to 1e-6) of a lattice"""
+    def f6(x):
+        t = "%.6f" % float(x)
+        return "0.000000" if t == "-0.000000" else t
+    return "Lattice(%s; base=%s)" % (",".join("%.8g" % float(x) for x in lat.abcABG()),
+                                     ",".join(f6(x) for row in lat.base for x in row))
 
 
 def canon(v):
@@ -257,7 +262,8 @@ _atom_site_fract_z
 Ni1 0 0 0
 """
 
-PRIORS = ["empty", "atoms", "copy-of-other-class", "stale-pdffit", "stale-xcfg", "extra-attrs", "titled", "loaded-nonP1-cif"]
+PRIORS = ["empty", "atoms", "copy-of-other-class", "stale-pdffit", "stale-xcfg", "extra-attrs", "titled", "loaded-nonP1-cif",
+          "rotated-lattice"]
 
 
 def make_prior(kind, clsname):
@@ -269,6 +275,10 @@ def make_prior(kind, clsname):
         return T()
     if kind == "atoms":
         return T([A("Cu", [0, 0, 0]), A("Zn", [0.5, 0.5, 0.5])], lattice=ds.Lattice(3.1, 3.1, 5.2, 90, 90, 120))
+    if kind == "rotated-lattice":
+        # a cell in a non-standard orientation (as left by a PDB/XCFG read or Lattice(base=...))
+        return T([A("Cu", [0, 0, 0]), A("Zn", [0.5, 0.5, 0.5])],
+                 lattice=ds.Lattice(base=[[0.0, 2.9, 2.9], [2.9, 0.0, 2.9], [2.9, 2.9, 0.0]]))
     if kind == "titled":
         return T([A("Cu", [0, 0, 0])], lattice=ds.Lattice(3.1, 3.1, 5.2, 90, 90, 120), title="prior title")
     if kind == "copy-of-other-class":
